@@ -32,6 +32,10 @@ IDX = {"tb.id": 0, "tb.n": 1, "tb.s": 2, "tb.t": 3, "id": 0, "n": 1, "s": 2, "t"
 STATIC = ["tb.n = tb.id", "tb.s = tb.t", "tb.n IS NULL", "1", "tb.n < tb.id", "tb.s IS NOT NULL",
           # static SQL text with literals whose blanks matter (the text is the caller's: it goes to the database verbatim)
           "tb.s = 'x  y'", "tb.t = 'a\tb'", "tb.s != 'p\u00a0q'", "tb.s   =   'x y'", "(tb.t = 'a b'\n  OR tb.t = 'x  y')"]
+SELECTS = ["SELECT tb.id, tb.n, tb.s, tb.t FROM tb",
+           "SELECT tb.id, tb.n, tb.s, tb.t FROM tb LEFT JOIN (SELECT id AS jid FROM tb WHERE id > -1000000000) AS j ON j.jid = tb.id",
+           'SELECT tb.id, tb.n AS "n n", tb.s, tb.t AS "1t" FROM tb',
+           "SELECT tb.id, tb.n, tb.s, tb.t FROM tb JOIN (SELECT 1 AS one WHERE 1 = 1) AS k ON 1 = 1"]
 BLANK_VALUES = ["x  y", "x y", "a\tb", "a b", "p\u00a0q", "p q"]
 MARK = "~#"
 
@@ -264,6 +268,31 @@ def make_conn(real, log, percent):
         def __iter__(self):
             return iter(self.c)
 
+        # the rest of the DB-API cursor, as a real driver offers it
+        def fetchall(self):
+            return self.c.fetchall()
+
+        def fetchone(self):
+            return self.c.fetchone()
+
+        def fetchmany(self, size=None):
+            return self.c.fetchmany(size) if size is not None else self.c.fetchmany()
+
+        @property
+        def rowcount(self):
+            return self.c.rowcount
+
+        @property
+        def arraysize(self):
+            return self.c.arraysize
+
+        def __enter__(self):
+            return self
+
+        def __exit__(self, *a):
+            self.c.close()
+            return False
+
         @property
         def description(self):
             return self.c.description
@@ -315,7 +344,11 @@ def evaluate(case):
             call_kw["_order_by"] = {"asc": "tb.id", "desc": "tb.id DESC"}[order]
         if scal:
             call_kw["_as_scalars"] = True
-        sel_sql = "SELECT tb.id, tb.n, tb.s, tb.t FROM tb"
+        # the SELECT ... FROM text is the caller's: plain; with a neutral 1:1 LEFT JOIN of a derived table that has a WHERE
+        # of its own; with result columns that cannot name namedtuple fields (rows come back as plain tuples)
+        sel_sql = SELECTS[(case.get("select") or 0) % len(SELECTS)]
+        if case.get("select"):
+            notes.add("select_text_variant_%d" % (case["select"] % len(SELECTS)))
         entry = case.get("entry", "list")
         got = None
         raised = None
@@ -585,6 +618,7 @@ def st_case(draw, max_conds=4, with_kwargs=True):
             "percent": draw(st.integers(0, 3)) == 0,
             "poison": draw(st.none() | st.none() | st.tuples(st.integers(0, 3), st.integers(0, 2), st.integers(0, 3)).map(list)),
             "reuse": draw(st.sampled_from([0, 0, 1, 2, 3])),
+            "select": draw(st.sampled_from([0, 0, 0, 1, 2, 3])),
             "prior": draw(st.sampled_from([None, None, "asc", "desc", "n"])),
             "lock_once": draw(st.integers(0, 5)) == 0}
 
